@@ -36,7 +36,7 @@ PROPS["C09"] = dict(
              7: "a rejected message changed the observed state"},
     trusted_base=_TRUSTED,
     assumptions=["the fee token is the native token (symbol = min unit = stake, scale 0), whose maximum the harness genesis raises to 2^64-1",
-                 "no sdkmath.Int overflow (amounts stay below 2^128)"],
+                 "message amounts below 2^256 (an sdk.Coin cannot carry more); mints / burns up to 2^255 are generated and refused, not aborted"],
 )
 
 PROPS["C10"] = dict(
@@ -73,5 +73,7 @@ PROPS["C10"] = dict(
              8: "a successful DeployERC20 / UpgradeERC20 changed a bank supply, a bank balance or an ERC20 balance"},
     trusted_base=_TRUSTED,
     assumptions=["a transactional EVM (state rolled back with the transaction), which is what the double provides and what a real EVM keeper is",
-                 "positive ratios; scales 0..18; no sdkmath.Int / LegacyDec overflow (amounts up to 2^128, ratios below 2^70)"],
+                 "positive ratios; scales 0..18; pure-function stream: amounts up to 2^128, ratios below 2^70 (no LegacyDec overflow); message stream: offers up to 2^255, "
+                 "where the LegacyDec overflow panic of LossLessSwap is modelled as an abort (lossless_overflows)",
+                 "an ERC20 implementation upgrade moves no balances (Solidity code outside the module)"],
 )
